@@ -59,7 +59,34 @@ type c17Case struct {
 	Prep     []c17Op           `json:"prep"`     // history of the engine under test before the judged call
 	Debug    bool              `json:"debug"`    // engine under test runs in debug mode (compiles on demand)
 	Limit    int               `json:"limit"`    // rate limit of the engine under test (0 = off)
+	Gone     *c17Gone          `json:"gone"`     // the judged request's context ends before / during the call
 }
+
+// c17Gone: the request behind the judged call goes away (client disconnected = cancel, or its deadline
+// passes) at a chosen point, possibly while other renders hold render slots of the rate limiter.
+//
+//	holders   that many other renders (of the template c17holder, whose function c17hold() blocks) are
+//	          inside Engine.Render on the same engine when the judged call starts, and stay there until
+//	          it has returned; with holders = limit > 0 the judged call finds no free slot
+//	at        -1: the context is over before RenderPartials is called;
+//	          k >= 0: it ends while the (k+1)-th executed partial of the call is being rendered (every
+//	          partial template of such a case calls c17tick() first, which counts and - at k - cancels
+//	          the context / waits for the deadline)
+//	after_ms  at >= 0: the context also ends that long after the call began, wherever the call is then
+//	          (still waiting for a slot, between two partials, or already back)
+type c17Gone struct {
+	How     string `json:"how"` // cancel | deadline
+	At      int    `json:"at"`
+	Holders int    `json:"holders"`
+	AfterMs int    `json:"after_ms"`
+}
+
+// hooks of the template functions c17tick / c17hold (nil: the functions do nothing); set only by the
+// process of the engine under test, for the judged call of a case with `gone`
+var (
+	c17Tick func()
+	c17Hold func()
+)
 
 // c17Op is one earlier call on the engine under test.
 //
@@ -227,6 +254,18 @@ func c17Funcs() map[string]flamingo.TemplateFunc {
 		"trim":       &templatefunctions.TrimFunc{},
 		"escapeHtml": &templatefunctions.EscapeHTMLFunc{},
 		"parseFloat": &templatefunctions.ParseFloat{},
+		"c17tick": tplFunc{func() string {
+			if h := c17Tick; h != nil {
+				h()
+			}
+			return ""
+		}},
+		"c17hold": tplFunc{func() string {
+			if h := c17Hold; h != nil {
+				h()
+			}
+			return ""
+		}},
 	}
 }
 
@@ -241,7 +280,8 @@ type c17Obs struct {
 	Procs   int           `json:"procs"` // operating-system processes used for the case
 	Msg     string        `json:"msg,omitempty"`
 	Prep    []string      `json:"prep"`    // outcome class of every prep operation (diagnostic)
-	Class   string        `json:"class"`   // ok | error | exec_panic
+	Class   string        `json:"class"`   // ok | error | exec_panic | hang (gone: the call did not come back although its context was over)
+	Held    int           `json:"held"`    // gone: holder renders that were inside Engine.Render during the judged call
 	Stalled bool          `json:"stalled"` // some call on the engine under test was still waiting when its deadline expired
 	NilMap  bool          `json:"nil_map"` // result map is nil
 	Entries []c17Entry    `json:"entries"`
@@ -573,9 +613,13 @@ func c17Child(job c17Job) (out c17JobOut, err error) {
 			})
 		}
 	}
-	call(func(ctx context.Context) {
-		obs.Class, obs.NilMap, obs.Entries = c17Partials(e, ctx, tname, fresh(), unhxAll(c.Partials))
-	})
+	if c.Gone != nil {
+		c17GoneCall(e, c, tname, fresh, obs)
+	} else {
+		call(func(ctx context.Context) {
+			obs.Class, obs.NilMap, obs.Entries = c17Partials(e, ctx, tname, fresh(), unhxAll(c.Partials))
+		})
+	}
 
 	// for the record only (after the judged call, on another engine): requested names that are no files
 	var ref *pugjs.Engine
@@ -595,4 +639,76 @@ func c17Child(job c17Job) (out c17JobOut, err error) {
 		obs.Alone = append(obs.Alone, c17AloneObs{Name: p, Res: safeRender(ref, ctx, name, fresh())})
 	}
 	return out, nil
+}
+
+// c17GoneCall: the judged call of a case whose request goes away (see c17Gone).
+func c17GoneCall(e *pugjs.Engine, c c17Case, tname string, fresh func() interface{}, obs *c17Obs) {
+	g := c.Gone
+	// the other renders: one after the other into Engine.Render, each stays inside c17hold()
+	release := make(chan struct{})
+	var entered, returned int32
+	c17Hold = func() {
+		atomic.AddInt32(&entered, 1)
+		<-release
+	}
+	var hwg sync.WaitGroup
+	for i := 0; i < g.Holders; i++ {
+		hwg.Add(1)
+		go func() {
+			defer hwg.Done()
+			defer atomic.AddInt32(&returned, 1)
+			safeRender(e, context.Background(), "c17holder", fresh())
+		}()
+		for t0 := time.Now(); int(atomic.LoadInt32(&entered)+atomic.LoadInt32(&returned)) <= i && time.Since(t0) < 20*time.Second; {
+			time.Sleep(200 * time.Microsecond)
+		}
+	}
+	obs.Held = int(atomic.LoadInt32(&entered))
+
+	after := time.Duration(g.AfterMs) * time.Millisecond
+	var cctx context.Context
+	var cancel context.CancelFunc
+	switch {
+	case g.How == "deadline" && g.At < 0:
+		cctx, cancel = context.WithDeadline(context.Background(), time.Now().Add(-time.Second))
+	case g.How == "deadline":
+		cctx, cancel = context.WithTimeout(context.Background(), after)
+	default:
+		cctx, cancel = context.WithCancel(context.Background())
+		if g.At < 0 {
+			cancel()
+		} else {
+			tm := time.AfterFunc(after, cancel)
+			defer tm.Stop()
+		}
+	}
+	defer cancel()
+	ticks := 0 // only touched by the goroutine of the judged call (templates run in the caller's goroutine)
+	c17Tick = func() {
+		if ticks == g.At {
+			if g.How != "deadline" {
+				cancel()
+			}
+			<-cctx.Done()
+		}
+		ticks++
+	}
+	done := make(chan struct{})
+	go func() {
+		defer close(done)
+		obs.Class, obs.NilMap, obs.Entries = c17Partials(e, cctx, tname, fresh(), unhxAll(c.Partials))
+	}()
+	hang := false
+	select {
+	case <-done:
+	case <-time.After(30 * time.Second):
+		hang = true // the context has been over for half a minute and the call is still not back
+	}
+	close(release)
+	<-done
+	hwg.Wait()
+	c17Tick, c17Hold = nil, nil
+	if hang {
+		obs.Class, obs.NilMap, obs.Entries = "hang", false, nil
+	}
 }
